@@ -22,6 +22,10 @@ structure St where
   cleared : Bool := false
   /-- the context was cancelled before the call returned -/
   errCancelled : Bool := false
+  /-- query filter classes by rank (`qf=`): `x` = every address the node can know of the peer is rejected by the filter;
+      `p` = the response carries a passing address, `k` = it carries none but the peerstore already holds a passing one.
+      Empty = no filter. -/
+  qf : List Char := []
 
 def showNats (xs : List Nat) : String := "[" ++ ",".intercalate (xs.map toString) ++ "]"
 def sortNats (xs : List Nat) : List Nat := sortBy (fun a b => a < b) xs
@@ -33,7 +37,7 @@ def stLetter : PState → String
 def reasonStr : Reason → String
   | .stopped => "stopped" | .cancelled => "cancelled" | .starvation => "starvation" | .completed => "completed"
 
-def accept (_ : Nat) : Bool := true
+def acceptOf (qf : List Char) (p : Nat) : Bool := qf.getD p 'p' != 'x'
 def noStop (_ : LState Nat) : Bool := false
 
 /-- the `ask:` events of the peers spawned by the last step -/
@@ -78,7 +82,8 @@ partial def step (st : St) (line : String) : St × String :=
     match start cfg noStop seeds with
     | .ok s =>
       let evs := [s!"upd:{n}:seed:{dotted seeds}"] ++ askEvs {} s
-      let st' := advance { cfg := cfg, s := s, pub := C09.kvOf ws "api" == "public", evs := evs, undialable := undial }
+      let qf := let t := C09.kvOf ws "qf"; if t == "-" || t == "" then [] else t.toList
+      let st' := advance { cfg := cfg, s := s, pub := C09.kvOf ws "api" == "public", evs := evs, undialable := undial, qf := qf }
       (st', showInflight st')
     | .error _ => ({ cfg := cfg, panic := some "panic" }, "panic")
   | ["nop"] => (st, showInflight st)
@@ -94,18 +99,18 @@ partial def step (st : St) (line : String) : St × String :=
     let out : Outcome Nat := if o == "fail" then .fail else
       let t := String.ofList (o.toList.drop 5)
       .resp (if t == "" then [] else (t.splitOn ",").map String.toNat!)
-    match Lookup.step st.cfg accept noStop st.s (.deliver p out) with
+    match Lookup.step st.cfg (acceptOf st.qf) noStop st.s (.deliver p out) with
     | .ok s' =>
       let upd := if st.s.terminated.isSome then [] else
         match out with
         | .fail => [s!"upd:{p}:u:"]
-        | .resp peers => [s!"upd:{p}:q:{dotted (ingest st.cfg accept peers)}"]
+        | .resp peers => [s!"upd:{p}:q:{dotted (ingest st.cfg (acceptOf st.qf) peers)}"]
       let st' := advance { st with s := s', evs := st.evs ++ upd ++ askEvs st.s s' }
       (st', showInflight st')
     | .error _ => ({ st with panic := some "panic" }, "panic")
   | ["cancel"] =>
     if st.panic.isSome then (st, "inflight=[]") else
-    match Lookup.step st.cfg accept noStop st.s .cancel with
+    match Lookup.step st.cfg (acceptOf st.qf) noStop st.s .cancel with
     | .ok s' =>
       -- a cancellation while follow-ups are outstanding clears `completed`
       let cl := st.cleared || !(st.fuPending.getD []).isEmpty
